@@ -244,12 +244,13 @@ def root_of(model):
     return None
 
 
-def oracle(observed, use_model=False, seed=0, tag="lua_oracle", chunk=24):
+def oracle(observed, use_model=False, seed=0, tag="lua_oracle", chunk=10):
     """[(program, label, strict, class, detail)] and {program: (frag, frag_strict)}; one coqc run per chunk of programs"""
     pids = [pid for pid, o in observed.items() if "skipped" not in o and "prog" in o]
     results = []
     frags = {}
     proved = {}
+    jobs = []
     for c0 in range(0, len(pids), chunk):
         body = []
         index = []
@@ -273,18 +274,22 @@ def oracle(observed, use_model=False, seed=0, tag="lua_oracle", chunk=24):
                     body.append('Eval vm_compute in ("<<<%s>>>" ++ show_lverdict (lua_check %s %s P_%s %s_v%d)).'
                                 % (cid, core.g_bool(strict), mn, mn, mn, k))
                     index.append((pid, label, strict, cid))
-        rc, out, err = core.coq_eval("cases_%s_%d" % (tag, c0 // chunk), "\n".join(body) + "\n", prelude=PRELUDE, timeout=3000)
+        jobs.append((c0 // chunk, "\n".join(body) + "\n", index))
+    from concurrent.futures import ThreadPoolExecutor
+    with ThreadPoolExecutor(max_workers=16) as ex:
+        outs = list(ex.map(lambda j: core.coq_eval("cases_%s_%d" % (tag, j[0]), j[1], prelude=PRELUDE, timeout=3000), jobs))
+    for (k, _, index), (rc, out, err) in zip(jobs, outs):
         if rc != 0:
-            return {"coq_error": "coqc exit code %d (chunk %d)\n%s" % (rc, c0 // chunk, err[-3000:])}
+            return {"coq_error": "coqc exit code %d (chunk %d)\n%s" % (rc, k, err[-3000:])}
         got = core.parse_results(out)
         for pid, label, strict, cid in index:
             r = got.get(cid, "NoResult:")
             cls, _, detail = r.partition(":")
             results.append((pid, label, strict, cls, detail))
-        for k, v in got.items():
-            if k.startswith("frag|"):
-                frags[k[5:]] = (v[0] == "T", v[1] == "T")
-                proved[k[5:]] = (v[2:3] == "T", v[3:4] == "T")
+        for k2, v in got.items():
+            if k2.startswith("frag|"):
+                frags[k2[5:]] = (v[0] == "T", v[1] == "T")
+                proved[k2[5:]] = (v[2:3] == "T", v[3:4] == "T")
     return {"results": results, "frags": frags, "proved": proved}
 
 
